@@ -185,7 +185,7 @@ class C13(P.Property):
                 out["crash_recs"].append(dict(rec))
         run.seam.on_event = on_disk
         try:
-            with world.Watchdog(120):
+            with world.Watchdog(600):
                 try:
                     run.sim.run(self._driver(run, plan, out, res.violations))
                 except core.SimLimit as e:
